@@ -17,7 +17,7 @@ class Optimizer(ABC):
         
     def zero_grad(self):
         for p in self.parameters:
-            p.zero_()
+            if p.requires_grad: p.zero_()
         
     @abstractmethod
     def step(self):
